@@ -134,7 +134,7 @@ func (w *c15World) filteredSource(site c15LoopSite) *c15Fn {
 		return nil
 	}
 	o := &c15Oracle{w: w}
-	if o.timeRole(site.env, arg) != 'T' {
+	if o.timeRole(arg.env, arg.expr) != 'T' {
 		return nil
 	}
 	return f
